@@ -136,6 +136,7 @@ type oracle struct {
 	doc    *sDoc
 	cast   map[string]string
 	fields map[string]*sField
+	groups map[string]*sMember // a group name defined in several places: the last definition wins (generator convention)
 }
 
 var excluded = map[string]bool{"BeginString": true, "BodyLength": true, "MsgType": true, "CheckSum": true}
@@ -150,7 +151,33 @@ func newOracle(d *sDoc, t *sTypes) *oracle {
 	for _, f := range d.Fields {
 		o.fields[f.Name] = f
 	}
+	o.groups = map[string]*sMember{}
+	var walk func(ms []*sMember)
+	walk = func(ms []*sMember) {
+		for _, m := range ms {
+			if m.XMLName.Local == "group" {
+				o.groups[m.Name] = m
+			}
+			walk(m.Members)
+		}
+	}
+	for _, m := range d.Messages {
+		walk(m.Members)
+	}
+	for _, c := range d.Components {
+		walk(c.Members)
+	}
+	walk(d.Header.Members)
+	walk(d.Trailer.Members)
 	return o
+}
+
+// groupMembers returns the canonical member list of a group.
+func (o *oracle) groupMembers(m *sMember) []*sMember {
+	if g, ok := o.groups[m.Name]; ok {
+		return g.Members
+	}
+	return m.Members
 }
 
 // goType of a field member as the type mapping says: enumerated non-boolean fields are strings.
@@ -201,24 +228,7 @@ func (o *oracle) containers() []container {
 	for _, c := range o.doc.Components {
 		cs = append(cs, container{kind: "component", name: c.Name, members: filter(c.Members)})
 	}
-	groups := map[string]*sMember{}
-	var walk func(ms []*sMember)
-	walk = func(ms []*sMember) {
-		for _, m := range ms {
-			if m.XMLName.Local == "group" {
-				groups[m.Name] = m
-			}
-			walk(m.Members)
-		}
-	}
-	for _, m := range o.doc.Messages {
-		walk(m.Members)
-	}
-	for _, c := range o.doc.Components {
-		walk(c.Members)
-	}
-	walk(o.doc.Header.Members)
-	walk(o.doc.Trailer.Members)
+	groups := o.groups
 	var gn []string
 	for n := range groups {
 		gn = append(gn, n)
@@ -317,8 +327,8 @@ func (g *drvGen) populateMember(m *sMember, recv string, ind string, exp string)
 		gr, en := fmt.Sprintf("g%d", g.tmp), fmt.Sprintf("e%d", g.tmp)
 		fmt.Fprintf(&g.sb, "%s%s := gen.New%s()\n", ind, en, entryType(m.Name))
 		fmt.Fprintf(&g.sb, "%s%s = append(%s, kv{gen.Field%s, []byte(\"1\")})\n", ind, exp, exp, m.Name)
-		if len(m.Members) > 0 {
-			g.populateMember(m.Members[0], en, ind, exp)
+		if gm := g.o.groupMembers(m); len(gm) > 0 {
+			g.populateMember(gm[0], en, ind, exp)
 		}
 		fmt.Fprintf(&g.sb, "%s%s := gen.New%s().AddEntry(%s)\n", ind, gr, grpType(m.Name), en)
 		fmt.Fprintf(&g.sb, "%s%s.Set%s(%s)\n", ind, recv, grpType(m.Name), gr)
@@ -376,8 +386,8 @@ func (g *drvGen) argFor(m *sMember, ind, exp string) string {
 		gr, en := fmt.Sprintf("g%d", g.tmp), fmt.Sprintf("e%d", g.tmp)
 		fmt.Fprintf(&g.sb, "%s%s := gen.New%s()\n", ind, en, entryType(m.Name))
 		fmt.Fprintf(&g.sb, "%s%s = append(%s, kv{gen.Field%s, []byte(\"1\")})\n", ind, exp, exp, m.Name)
-		if len(m.Members) > 0 {
-			g.populateMember(m.Members[0], en, ind, exp)
+		if gm := g.o.groupMembers(m); len(gm) > 0 {
+			g.populateMember(gm[0], en, ind, exp)
 		}
 		fmt.Fprintf(&g.sb, "%s%s := gen.New%s().AddEntry(%s)\n", ind, gr, grpType(m.Name), en)
 		return gr
@@ -547,8 +557,8 @@ func (g *drvGen) fieldsOfArg(m *sMember) int {
 	case "field":
 		return 1
 	case "group":
-		if len(m.Members) > 0 {
-			return 1 + g.fieldsOfPopulate(m.Members[0])
+		if gm := g.o.groupMembers(m); len(gm) > 0 {
+			return 1 + g.fieldsOfPopulate(gm[0])
 		}
 		return 1
 	case "component":
@@ -578,8 +588,8 @@ func (g *drvGen) fieldsOfPopulate(m *sMember) int {
 	case "field":
 		return 1
 	case "group":
-		if len(m.Members) > 0 {
-			return 1 + g.fieldsOfPopulate(m.Members[0])
+		if gm := g.o.groupMembers(m); len(gm) > 0 {
+			return 1 + g.fieldsOfPopulate(gm[0])
 		}
 		return 1
 	case "component":
@@ -1014,7 +1024,7 @@ func validateSchema(fixgen, work string, sc schemaCase, st *c12Stats) ([]string,
 				cn = cs[r.Params[0]].name
 			}
 			k := sc.name + "|" + v.Msg
-			if seen[k] {
+			if seen[k] || len(viol) >= 4 {
 				continue
 			}
 			seen[k] = true
@@ -1094,6 +1104,9 @@ func c12Check(tier string, ev *Evidence) ([]string, error) {
 			return viol, err
 		}
 		viol = append(viol, v...)
+		if len(viol) >= 12 {
+			break // enough counterexamples; the remaining schemas would only repeat them
+		}
 	}
 
 	// ---- concrete side conditions (no solver involved) ----
@@ -1166,12 +1179,14 @@ func c12Check(tier string, ev *Evidence) ([]string, error) {
 	// the reference package shipped in tests/fix44 vs what the generator produces from source/fix44.xml
 	if errA == nil {
 		shipped, _ := readGoFiles(filepath.Join(repoDir, "tests/fix44"))
+		refDiffs := 0
 		for n, c := range a {
 			if _, ok := shipped[n]; !ok {
 				viol = append(viol, "tests/fix44 lacks generated file "+n)
 				continue
 			}
-			if d := declDiff(c, shipped[n]); d != "" {
+			if d := declDiff(c, shipped[n]); d != "" && refDiffs < 5 {
+				refDiffs++
 				viol = append(viol, "tests/fix44/"+n+" does not correspond to the generator's output: "+d)
 			}
 		}
